@@ -36,7 +36,7 @@ def main():
     base = os.environ.get("SEED_BASE", "HEAD")  # the commit the change was written against
     rc, o = sh(["git", "-C", "/repo", "worktree", "add", "-q", "--detach", wt, base])
     meta = {"property": prop, "slug": slug, "repo_head": sh(["git", "-C", "/repo", "rev-parse", "--short", base])[1].strip(), "ran": [],
-            "harness_commit": sh(["git", "-C", VERIF, "log", "-1", "--format=%h", "--", "sim", "check"])[1].strip()}
+            "harness_commit": sh(["git", "-C", VERIF, "log", "-1", "--format=%h", "--", "sim/checks", "sim/worlds", "sim/hx", "sim/simkern", "sim/weave", "sim/overlay_src"])[1].strip()}
     try:
         # place the demo
         placed = []
@@ -131,7 +131,7 @@ def main():
             meta["checks"] = {}
             for p in [prop] + extra:
                 t0 = time.time()
-                e = dict(ENV, VERIF_REPO=wt, VERIF_MAX_VIOLATIONS="1", VERIF_SNAPSHOT_SIM=os.environ.get("VERIF_SNAPSHOT_SIM", "head"))
+                e = dict(ENV, VERIF_REPO=wt, VERIF_MAX_VIOLATIONS="1", VERIF_STOP_AT_FIRST="1", VERIF_SNAPSHOT_SIM=os.environ.get("VERIF_SNAPSHOT_SIM", "head"))
                 rcc, oc = sh(["./check", p, "quick"], cwd=VERIF, env=e)
                 lines = [l for l in oc.splitlines() if l.startswith("VIOLATION") or l.startswith("  class=") or l.startswith("OK ") or l.startswith("KNOWN") or "HARNESS" in l]
                 meta["checks"][p] = {"exit": rcc, "wall_s": round(time.time() - t0, 1), "output": [l[:400] for l in lines[:8]]}
